@@ -85,7 +85,7 @@ theorem calls_single (t : Nat) : ∀ (k : Nat) (e : Exp) (s : MState) (f : Nat),
     · intro hk
       obtain ⟨j, rfl⟩ : ∃ j, k = j + 1 := ⟨k - 1, by omega⟩
       have hcall : (call s f []).2 = [.ret e.ret] ∧ (call s f []).1.q = [] ∧ (call s f []).1.mode = .strict := by
-        simp [call, findExp, hq, List.find?_cons, hbq, hn, ha, modifyFirst, removeFirst, httl, checksFor, hm]
+        simp [call, findExp, hq, List.find?_cons, hbq, hn, ha, modifyFirst, removeFirst, httl, checksFor, hm, reportFor, Exp.unknownParam, hc, Exp.served, hfn]
       have hrest : ∀ (j : Nat) (s' : MState), s'.q = [] → s'.mode = .strict →
           (calls s' f (List.replicate j [])).2 = List.replicate j [.check none false, .ret 0]
           ∧ (calls s' f (List.replicate j [])).1.q = [] := by
@@ -121,7 +121,7 @@ theorem calls_single (t : Nat) : ∀ (k : Nat) (e : Exp) (s : MState) (f : Nat),
       have hcall : (call s f []).2 = [.ret e.ret]
           ∧ (call s f []).1.q = [{ e with called := e.called + 1, triggered := e.triggered + 1, ttl := e.ttl - 1 }]
           ∧ (call s f []).1.mode = .strict := by
-        simp [call, findExp, hq, List.find?_cons, hbq, hn, ha, modifyFirst, hnot, checksFor, hm, hts]
+        simp [call, findExp, hq, List.find?_cons, hbq, hn, ha, modifyFirst, hnot, checksFor, hm, hts, reportFor, Exp.unknownParam, hc, Exp.served]
       obtain ⟨i1, i2⟩ := ih k { e with called := e.called + 1, triggered := e.triggered + 1, ttl := e.ttl - 1 }
         (call s f []).1 f hcall.2.1 hcall.2.2 hfn (by show e.ttl - 1 = (t : Int) + 1; omega) (by omega) hc hts
       constructor
